@@ -83,10 +83,14 @@ def run_sequence(ctx, rng):
 
     def flush():
         steps.append(("flush",))
+        try:
+            real_flush()                 # the real drain: pending deliveries (one failing, one slow) are waited for
+        finally:
+            d.task_handler._open = True
         if current["faults"] and current["faults"]["flush"]:
             raise RuntimeError("delivery failed")
-        d.task_handler._open = True
     d.task_handler.flush = flush
+    delivered = []
     real_hshutdown = d.trigger_handler.shutdown
 
     def hshutdown():
@@ -119,11 +123,28 @@ def run_sequence(ctx, rng):
                 current["faults"] = faults
                 del steps[:]
                 was_started = d.started
+                del delivered[:]
+                if was_started:
+                    # two deliveries are in flight when shutdown begins: one fails shortly after, one takes a while
+                    import time as _t
+
+                    def bad_send():
+                        _t.sleep(0.02)              # fails while shutdown is already waiting
+                        raise RuntimeError("send failed")
+
+                    def slow_send():
+                        _t.sleep(0.06)
+                        delivered.append("slow")
+                    d.task_handler.submit_task(bad_send)
+                    d.task_handler.submit_task(slow_send)
                 try:
                     d.shutdown()
                 except BaseException as e:
                     problems.append(("shutdown-raised", "shutdown raised %r with faults %r" % (e, faults)))
                 current["faults"] = None
+                if was_started and delivered != ["slow"]:
+                    problems.append(("not-drained", "shutdown returned while a delivery was still in progress (one delivery failed, "
+                                     "another was still being sent)"))
                 if was_started:
                     want = [("hooks",), ("flush",), ("poll",)] + [("plugin", i) for i in range(nplug)]
                     got = [s for s in steps]
